@@ -82,7 +82,8 @@ def check(run):
         """`|volume| < threshold` guards: generic position (branch not taken) is a legitimate assumption only when
         the threshold is a constant tolerance; a threshold that depends on the input makes the degenerate branch
         reachable for valid solids"""
-        if frame.fi.name != "mass_properties" or not (isinstance(test, ast.Compare) and len(test.ops) == 1):
+        # (the guard may sit in mass_properties itself or in a private helper it was split into: any function of triangles.py reached from it)
+        if frame.fi.module.name != "trimesh.triangles" or not (isinstance(test, ast.Compare) and len(test.ops) == 1):
             return None
         lhs, rhs = frame.ev(test.left), frame.ev(test.comparators[0])
         small, bound = (lhs, rhs) if isinstance(test.ops[0], (ast.Lt, ast.LtE)) else (rhs, lhs)
